@@ -309,6 +309,23 @@ pub fn check(c: &Case) -> CaseResult {
             return fail(format!("entry=Sm2PrivateKey::decrypt input={} outcome=rejected-valid", class), format!("{} tamper={:?} ct={}: {}", cfg, c.tamper, hexs::hx(&ct), e));
         }
     }
+    // the same ciphertext re-framed as a GM/T 0009 SM2Cipher document and offered to decrypt_asn1: the second entry point must reach the same verdict
+    // (uncompressed framing only: the document carries both coordinates, the compressed flag would make the decoder recompute y)
+    if !b.compressed && ct.len() >= 97 && ct[0] == 4 && !matches!(c.tamper, Tamper::AltEncoding(_) | Tamper::WrongKind) {
+        let (c3, c2) = if b.c1c3c2 { (ct[65..97].to_vec(), ct[97..].to_vec()) } else { (ct[ct.len() - 32..].to_vec(), ct[65..ct.len() - 32].to_vec()) };
+        let doc = crate::refimpl::der::sm2_cipher(&from_be(&ct[1..33]), &from_be(&ct[33..65]), &c3, &c2);
+        let got2 = outcome(|| sk.decrypt_asn1(&doc, false, model(b.c1c3c2)));
+        match (&got2, &want) {
+            (Outcome::Panic(p), _) => return fail(format!("entry=Sm2PrivateKey::decrypt_asn1 input={} outcome=panic", class), format!("{} tamper={:?} doc={} -> {}", cfg, c.tamper, hexs::hx(&doc), p)),
+            (Outcome::Ok(m), Some(w)) => ensure!(m == w, "entry=Sm2PrivateKey::decrypt_asn1 outcome=wrong-plaintext", "{} tamper={:?}: library {} reference {}", cfg, c.tamper, hexs::hx(m), hexs::hx(w)),
+            (Outcome::Err(_), None) => {}
+            (Outcome::Ok(m), None) => {
+                return fail(format!("entry=Sm2PrivateKey::decrypt_asn1 input={} outcome=accepted-invalid", class),
+                    format!("{} tamper={:?} doc={}: library returns plaintext {} (original {}), the standard's decryption reports an error", cfg, c.tamper, hexs::hx(&doc), hexs::hx(m), hexs::hx(&bd.msg)));
+            }
+            (Outcome::Err(e), Some(_)) => return fail(format!("entry=Sm2PrivateKey::decrypt_asn1 input={} outcome=rejected-valid", class), format!("{} tamper={:?} doc={}: {}", cfg, c.tamper, hexs::hx(&doc), e)),
+        }
+    }
     pass(want.is_none(), format!("{}/{}", class, cfg))
 }
 
@@ -360,7 +377,7 @@ pub fn run(ctx: &Ctx) {
         "a case is (base, tampering): the base is a ciphertext made by the *reference* encryptor (|M| 1..64, four configurations); tamperings: every single-bit flip incl. the prefix byte (exhaustive per base), \
          every truncation length, small extensions, C1 replaced by a random off-curve (x,y) with C2/C3 forged consistently through the group law of the curve y^2=x^3+ax+b' it lies on (invalid-curve attack: \
          without an on-curve check the library returns the plaintext), the same with C1 from the near-curve family (off the curve but on a neighbouring equation with one constant changed, abscissas at representation boundaries incl. those where the Montgomery image of x, x^2 or x^3 is next to 0 or p), C1 = (x, 0) (a point of order two under the curve's formulas) with C2/C3 forged for the shared point an unchecked decryptor would compute (odd and even private keys), C1 nudged off the curve, compressed x with non-residue right-hand side, an on-curve C1 with small x encoded as x+p with consistent C2/C3, \
-         every other prefix byte, C1 re-encoded in the other form, the whole ciphertext re-encoded (SM2Cipher DER, hex text, the other component order), multi-byte alterations of C3 / C2 / C1.x that preserve the xor, the sum or the multiset of the bytes or words (a folded or partial comparison of C3 accepts them), wholesale replacements of C3. Oracle: the reference decryptor (strict SEC1 decoding, on-curve check, C3 check) decides; tampered => Err, never a plaintext, never a panic. Non-trivial: a case the reference rejects.",
+         every other prefix byte, C1 re-encoded in the other form, the whole ciphertext re-encoded (SM2Cipher DER, hex text, the other component order), multi-byte alterations of C3 / C2 / C1.x that preserve the xor, the sum or the multiset of the bytes or words (a folded or partial comparison of C3 accepts them), wholesale replacements of C3. Every uncompressed case is also re-framed as an SM2Cipher DER document and offered to decrypt_asn1, which must reach the same verdict. Oracle: the reference decryptor (strict SEC1 decoding, on-curve check, C3 check) decides; tampered => Err, never a plaintext, never a panic. Non-trivial: a case the reference rejects.",
     );
     ctx.assume("reference decryptor (harness/src/refimpl/sm2.rs): strict SEC1 decoding (prefix 02/03/04 matching the caller's flag, coordinates < p), on-curve check, C3 = SM3(x2||M'||y2)");
     ctx.assume("rejection is decided for the generated tamperings only");
